@@ -9,9 +9,11 @@ package bufiox
 //   $u        the unread stream: the bytes the reader will still deliver, in order
 //             (len($u) is how many it will deliver before its source fails)
 //   $readlen  bytes consumed since the last Release
+//   $lasterr  the error most recently returned by a method of the handle
 
 //@ ghost $u string
 //@ ghost $readlen int
+//@ ghost $lasterr error
 
 //@ pred rdTake(rd, n) = same(rd.$u, old(rd.$u)[n:]) && rd.$readlen == old(rd.$readlen) + n
 //@ pred rdSame(rd) = same(rd.$u, old(rd.$u)) && rd.$readlen == old(rd.$readlen)
@@ -22,7 +24,8 @@ package bufiox
 //@   ensures (err == nil) == (0 <= n && n <= len(old(self.$u)))
 //@   ensures err == nil ==> len(p) == n && eqbytes(p, 0, old(self.$u), 0, n) && rdTake(self, n)
 //@   ensures err != nil ==> isnil(p) && rdSame(self)
-//@   assigns self.$u, self.$readlen
+//@   ensures err != nil ==> same(self.$lasterr, err)
+//@   assigns self.$u, self.$readlen, self.$lasterr
 
 //@ iface Reader.Peek
 //@   params n
@@ -31,7 +34,8 @@ package bufiox
 //@   ensures err == nil ==> len(buf) == n && eqbytes(buf, 0, old(self.$u), 0, n)
 //@   ensures err != nil ==> isnil(buf)
 //@   ensures rdSame(self)
-//@   assigns self.$u, self.$readlen
+//@   ensures err != nil ==> same(self.$lasterr, err)
+//@   assigns self.$u, self.$readlen, self.$lasterr
 
 //@ iface Reader.Skip
 //@   params n
@@ -39,7 +43,8 @@ package bufiox
 //@   ensures (err == nil) == (0 <= n && n <= len(old(self.$u)))
 //@   ensures err == nil ==> rdTake(self, n)
 //@   ensures err != nil ==> rdSame(self)
-//@   assigns self.$u, self.$readlen
+//@   ensures err != nil ==> same(self.$lasterr, err)
+//@   assigns self.$u, self.$readlen, self.$lasterr
 
 //@ iface Reader.ReadBinary
 //@   params bs
@@ -48,7 +53,8 @@ package bufiox
 //@   ensures (n == len(bs)) == (len(bs) <= len(old(self.$u)))
 //@   ensures n < len(bs) ==> err != nil
 //@   ensures n == len(bs) ==> err == nil
-//@   assigns bs[0:len(bs)], self.$u, self.$readlen
+//@   ensures err != nil ==> same(self.$lasterr, err)
+//@   assigns bs[0:len(bs)], self.$u, self.$readlen, self.$lasterr
 
 //@ iface Reader.ReadLen
 //@   results n
